@@ -288,14 +288,17 @@ class Config():
         payload = (handler(path, raise_not_found) if handler
                    else self.load_yaml(path, raise_not_found))
 
-        if payload:
+        # None means file not found or empty. Anything else, falsy or not,
+        # has to be a mapping - don't silently ignore [], 0, False or ''.
+        if payload is not None:
             if not isinstance(payload, Mapping):
                 raise pypyr.errors.ConfigError(
                     f'Config file {path} should be a mapping (i.e a dict or '
                     'table) at the top level.')
 
-            self.update(payload)
-            self._config_loaded_paths.append(path)
+            if payload:
+                self.update(payload)
+                self._config_loaded_paths.append(path)
 
     def update(self, input: Mapping) -> None:
         """Update self from input dict.
